@@ -76,6 +76,80 @@ func init() {
 			"pre-states are arbitrary stacks satisfying the representation invariant Inv (slot 0 = configuration, kind in {AND,OR,NOT,LIST,BASIC}, capacity field 0 or >= len, only the eight settable option bits)",
 		},
 	})
+
+	register(&property{
+		id: "C01",
+		gen: func(tier string, seed int) []symx.CaseSpec {
+			var out []symx.CaseSpec
+			maxN, maxSlack, maxM := q(tier, 3, 5), q(tier, 1, 2), q(tier, 2, 3)
+			for n := 0; n <= maxN; n++ {
+				for slack := 0; slack <= maxSlack; slack++ {
+					for op := 0; op < 8; op++ {
+						if op == 0 {
+							for m := 0; m <= maxM; m++ {
+								out = append(out, cs("VH_C01_Step", n, slack, m, op))
+							}
+						} else {
+							out = append(out, cs("VH_C01_Step", n, slack, 0, op))
+						}
+					}
+				}
+			}
+			out = append(out, cs("VH_C01_Hist", 1, 2, 2))
+			out = append(out, cs("VH_C01_Hist", 2, 1, 2))
+			if tier == "thorough" {
+				out = append(out, cs("VH_C01_Hist", 2, 2, 3))
+				out = append(out, cs("VH_C01_Hist", 3, 1, 2))
+			}
+			return out
+		},
+		boundsText: map[string]string{
+			"quick":    "one-step induction from an arbitrary Inv pre-state: length n<=3, spare capacity<=1, push batch<=2 (nil values by fork), all 8 mutators, all index arguments; histories of 2 operations from every constructor (capacity 0..2, LIFO/FIFO)",
+			"thorough": "one-step induction from an arbitrary Inv pre-state: length n<=5, spare capacity<=2, push batch<=3; histories of up to 3 operations from every constructor (capacity 0..3, LIFO/FIFO)",
+		},
+		outside: "stacks longer than the bound (covered only through the inductive argument with Inv as hypothesis); elements that are Stacks/Conditions (irrelevant to ordering)",
+		assumptions: []string{
+			"inductive hypothesis Inv (DESIGN §3.11): the pre-state is any stack with slot 0 = configuration, capacity field 0 or >= len, option bits within the eight settable ones; base case = the constructors (history harness)",
+			"indices of Remove/Replace/Swap address existing positions (as the statement says); Insert takes any int",
+			"leniency: Remove(i) of a nil element may either remove it or report failure; the success flag of Pop on a nil element is not constrained; Front/Back are constrained only when that end's element is non-nil or all elements are nil",
+		},
+	})
+
+	register(&property{
+		id: "C03",
+		gen: func(tier string, seed int) []symx.CaseSpec {
+			var out []symx.CaseSpec
+			maxN := q(tier, 3, 5)
+			for n := 0; n <= maxN; n++ {
+				for slack := 0; slack <= 1; slack++ {
+					for op := 0; op <= 6; op++ {
+						switch op {
+						case 0, 2:
+							for m := 0; m <= 3; m++ {
+								out = append(out, cs("VH_C03_Step", n, slack, m, op))
+							}
+						default:
+							out = append(out, cs("VH_C03_Step", n, slack, 0, op))
+						}
+					}
+				}
+			}
+			out = append(out, cs("VH_C03_Hist", 2, 2, 2))
+			if tier == "thorough" {
+				out = append(out, cs("VH_C03_Hist", 3, 2, 3))
+			}
+			for k := 0; k < 5; k++ {
+				out = append(out, cs("VH_C08_Ctor", k))
+			}
+			return out
+		},
+		boundsText: map[string]string{
+			"quick":    "length n<=3, capacity field any value in [n+1,n+4] or none, push/transfer batches<=3, one step of Push/Insert/Transfer/Marshal/Pop/Remove/Reset; histories of 2 steps from constructors with capacity 0..2; constructor capacity argument any int <=64",
+			"thorough": "length n<=5, capacity field any value in [n+1,n+4] or none, batches<=3; histories of 3 steps from constructors with capacity 0..3",
+		},
+		outside: "capacities further than 3 above the current length (behave as far from the boundary); stacks longer than the bound",
+		assumptions: []string{"pre-state satisfies Inv; capacity field c means user capacity c-1"},
+	})
 }
 
 var _ = fmt.Sprint
